@@ -12,7 +12,7 @@ import (
 )
 
 func init() {
-	Register(&PropDef{ID: "C04", Run: runC04})
+	Register(&PropDef{ID: "C04", Run: runC04, Drops: true})
 }
 
 // c04Patience: C04 claims the router keeps serving, not that it does so
